@@ -25,22 +25,31 @@ Definition fent_of_sx (x:sx) : option (str * fent) :=
 Definition fsys_of_sx (x:sx) : option fsys :=
   match x with SL l => all_some (map fent_of_sx l) | _ => None end.
 
-(* (cwd "f" file table)  -> res objs   : parse(file_name=file, process_includes=True)
-   (cwd "s" objs table)  -> res objs   : parse(input_string=..., process_includes=True) *)
+(* one call = one (cwd, root) pair:
+     mode "f": root = file name  : parse(file_name=root, process_includes=True)
+     mode "s": root = objs       : parse(input_string=..., process_includes=True) *)
+Definition call_one (fs:fsys) (mode:str) (x:sx) : sx :=
+  match x with
+  | SL [SA cwd; root] =>
+      if eqs mode (s_ "f") then
+        match root with
+        | SA file => sx_res sx_objs (includes_file isc0 fs cwd file)
+        | _ => sx_bad end
+      else if eqs mode (s_ "s") then
+        match objs_of_sx root with
+        | Some objs => sx_res sx_objs (includes_string isc0 fs cwd objs)
+        | None => sx_bad end
+      else sx_bad
+  | _ => sx_bad
+  end.
+
+(* (mode ((cwd root) ...) table) -> (res objs ...) : the same file table used from several
+   current directories *)
 Definition run_includes (x:sx) : sx :=
   match x with
-  | SL [SA cwd; SA mode; root; table] =>
+  | SL [SA mode; SL calls; table] =>
       match fsys_of_sx table with
-      | Some fs =>
-          if eqs mode (s_ "f") then
-            match root with
-            | SA file => sx_res sx_objs (includes_file isc0 fs cwd file)
-            | _ => sx_bad end
-          else if eqs mode (s_ "s") then
-            match objs_of_sx root with
-            | Some objs => sx_res sx_objs (includes_string isc0 fs cwd objs)
-            | None => sx_bad end
-          else sx_bad
+      | Some fs => SL (map (call_one fs mode) calls)
       | None => sx_bad
       end
   | _ => sx_bad
